@@ -107,22 +107,25 @@ let parse_items kv =
     (split_on ';' (get kv "items" "-"))
 let item_dir item = String.concat "/" (String.split_on_char '.' item)
 
+(* live=NAME liveat=t,bits : the file NAME received this point (clock t) and was synced while the
+   first matched file was being handled, i.e. before any later file was read *)
+let apply_live kv =
+  match get kv "live" "", String.split_on_char ',' (get kv "liveat" "") with
+  | name, [t; bits] when name <> "" ->
+    (match lookup name with
+     | Some h -> (match reopen h with
+         | Some h' -> let (h'', _) = h_update flocq_fops h' (z_of_int (-1)) (z_of_dec t) (z_of_hex bits) (z_of_dec t) in
+           set_file name (Some (sync h''))
+         | None -> ())
+     | None -> ())
+  | _ -> ()
+
 let () =
   register "clicopy" (fun tk ->
     let kv = kv_of tk in
     let (sb, sr) = base_rel (get kv "src" "") and (db, dr) = base_rel (get kv "dest" "") in
     let o = copy_opts kv in
-    (* live=NAME liveat=t,bits : the source NAME received this point (clock t) and was synced while
-       the first matched file was being copied, i.e. before any later file was read *)
-    (match get kv "live" "", String.split_on_char ',' (get kv "liveat" "") with
-     | name, [t; bits] when name <> "" ->
-       (match lookup name with
-        | Some h -> (match reopen h with
-            | Some h' -> let (h'', _) = h_update flocq_fops h' (z_of_int (-1)) (z_of_dec t) (z_of_hex bits) (z_of_dec t) in
-              set_file name (Some (sync h''))
-            | None -> ())
-        | None -> ())
-     | _ -> ());
+    apply_live kv;
     let globbed = get kv "files" "-" <> "-" || String.contains sr '*' || String.contains sr '?' || String.contains sr '[' in
     let jobs =
       if globbed then
@@ -138,6 +141,7 @@ let () =
         (List.map snd jobs));
   register "clidiff" (fun tk ->
     let kv = kv_of tk in
+    apply_live kv;
     let (sb, sr) = base_rel (get kv "src" "") and (db, dr) = base_rel (get kv "dest" "") in
     let ns = nows kv in
     let aid = getz kv "archive" (-1) and from = getz kv "from" 0 and until = getz kv "until" 0 in
@@ -276,7 +280,7 @@ let () =
         | _ -> failwith "pl") (split_on ',' (get kv "pl" "-")) in
     let k = List.length layout in
     let lists = List.init k (fun i -> List.filter_map (fun (a, t, v) -> if a = i then Some { p_time = z_of_int t; p_val = v } else None) pl) in
-    let (st, f) = generate_cmd flocq_fops existed (getz kv "m" 2) (z_of_hex (get kv "x" "3f000000")) layout lists now in
+    let (st, f) = generate_checked flocq_fops existed (geti kv "fill" 1 = 1) (z_of_dec (get kv "max" "10")) (getz kv "m" 2) (z_of_hex (get kv "x" "3f000000")) layout lists now in
     (match textout kv with
      | ToBad -> obs "cligenerate err"
      | ToFull | ToDiscard ->
